@@ -166,6 +166,18 @@ func genMapFamilies(g genCfg, c ContainerKind, level int, full bool) []*MapScen 
 		add(&MapScen{Rel: RelZeroSD, NKeys: 2, Init: []int{1, 1}, Table: TPlain, Threads: [][]MIn{{on(opDelete, 0), on(opStore, 0)}, {on(b, 1)}}})
 		add(&MapScen{Rel: RelZeroSD, NKeys: 2, Init: []int{0, 1}, Table: TPlain, Threads: [][]MIn{{on(opStore, 0)}, {on(b, 0)}}})
 	}
+	// F13: non-initial start: the map has grown and shrunk back to its minimum length before the scenario
+	for _, a := range []MIn{opStore, opDelete, opLoS, opCDel, opClear} {
+		for _, b := range []MIn{opLoad, opStore, opDelete, opLaD, opLoC, opClear} {
+			add(&MapScen{Rel: RelSS, NKeys: 2, Init: []int{1, 0}, Table: TPlain, Cycled: true, Threads: [][]MIn{{on(a, 0)}, {on(b, 0)}}})
+			add(&MapScen{Rel: RelSD, NKeys: 2, Init: []int{1, 1}, Table: TPlain, Cycled: true, Threads: [][]MIn{{on(a, 0)}, {on(b, 1)}}})
+		}
+	}
+	for _, b := range []MIn{opLoad, opStore, opDelete, opLoS} {
+		add(&MapScen{Rel: RelSD, NKeys: 2, Init: []int{0, 1}, Table: TGrowArmed, Cycled: true, Threads: [][]MIn{{on(opStore, 0)}, {on(b, 1)}}, ExpectGrow: true})
+		add(&MapScen{Rel: RelDD, NKeys: 2, Init: []int{0, 1}, Table: TGrowArmed, Cycled: true, Threads: [][]MIn{{on(opStore, 0)}, {on(b, 1)}}, ExpectGrow: true})
+		add(&MapScen{Rel: RelDD, NKeys: 2, Init: []int{1, 1}, Table: TShrinkArmed, Cycled: true, Threads: [][]MIn{{on(opDelete, 0)}, {on(b, 1)}}, ExpectShrink: true})
+	}
 	// F6: shrink in flight. T0 removes k0 leaving its bucket empty below the shrink threshold.
 	for _, del := range removeOps {
 		if level == 0 && del.Op != MDelete {
